@@ -28,14 +28,17 @@ class Ctx:
         self.roots_analysed = 0; self.paths_analysed = 0; self.steps = 0
         self.scan_wall = 0.0
         self.internal = []
-        self.visited = set()   # vek bodies interpreted by any root of this check (crate-independent def-paths)
+        self.profile = 'debug'  # 'release' during the release pass (debug_assert! conditions not evaluated); keys get the prefix rel:
+        self.visited = {}      # feature set -> vek bodies interpreted by any root of this check (def-paths; impl ordinals depend on the features)
+        self.cpasses = {}      # feature set -> vrun.ConfigPass (started with the first scan that uses the feature set)
+        self.no_cpass = bool(only) or bool(os.environ.get('VV_NO_CONFIG_PASS'))
         self.elem = 'f32'      # 'f64' during the thorough tier's twin pass (every root re-instantiated with f64 elements)
 
     # ------------------------------------------------------------ analysis
     def scan(self, roots, features, local=False, extra_prelude='', extra_deps=''):
         if self.only: roots = [r for r in roots if self.only in r.name]
-        if self.elem == 'f64':
-            roots = [vrun.Root(r.name, r.code.replace(r.name, '\0N\0').replace('f32', 'f64').replace('\0N\0', r.name), [o.replace('f32', 'f64') for o in r.opaque], r.max_paths) for r in roots]
+        if self.elem != 'f32':
+            roots = [vrun.Root(r.name, r.code.replace(r.name, '\0N\0').replace('f32', self.elem).replace('\0N\0', r.name), [o.replace('f32', self.elem) for o in r.opaque], r.max_paths) for r in roots]
         names = [r.name for r in roots]
         if len(set(names)) != len(names):
             dup = [n for n in names if names.count(n) > 1]
@@ -43,7 +46,9 @@ class Ctx:
         if os.environ.get('VV_DUMP_ROOTS'):
             with open(os.environ['VV_DUMP_ROOTS'], 'a') as f:
                 for r in roots: f.write('%s\t%s\t%s\n' % (self.pid, r.name, ' '.join(r.code.split())))
-        sc = vrun.scan(roots, features, local=local, extra_prelude=extra_prelude, extra_deps=extra_deps)
+        fk = tuple(sorted(features))
+        if not self.no_cpass and fk not in self.cpasses: self.cpasses[fk] = vrun.ConfigPass(features)
+        sc = vrun.scan(roots, features, local=local, extra_prelude=extra_prelude, extra_deps=extra_deps, extra_env=({'VEKSCAN_RELEASE': '1'} if self.profile == 'release' else None))
         self.scan_wall += sc.wall
         if sc.compile_error is not None:
             err = first_error(sc.compile_error)
@@ -60,7 +65,7 @@ class Ctx:
             res = sc.get(r.name)
             if res is None:
                 raise Internal('driver did not report root %s' % r.name)
-            self.visited |= set(res.d.get('visited', []))
+            self.visited.setdefault(fk, set()).update(res.d.get('visited', []))
             self.roots_analysed += 1; self.paths_analysed += len(res.paths); self.steps += res.steps
             if not res.ok and 'undefined behaviour' in res.status:
                 self.viol('ub/%s' % r.name, rule='no undefined behaviour on any explored path (out-of-bounds unchecked access)', where=r.code, found=res.status, expected='in-bounds accesses only')
@@ -70,7 +75,8 @@ class Ctx:
 
     # ------------------------------------------------------------ obligations
     def ob(self, key, ok, rule='', where='', expected=None, found=None, detail=None):
-        if self.elem == 'f64': key = 'f64:' + key
+        if self.elem != 'f32': key = self.elem + ':' + key
+        if self.profile == 'release': key = 'rel:' + key
         self.obligations += 1
         self.keys.add(key)
         r = self.rules.setdefault(rule or '?', [0, 0]); r[0] += 1
@@ -83,7 +89,8 @@ class Ctx:
         return False
 
     def viol(self, key, rule='', where='', expected=None, found=None, detail=None, counted=False):
-        if self.elem == 'f64' and not counted and not key.startswith('f64:'): key = 'f64:' + key
+        if self.elem != 'f32' and not counted and not key.startswith(self.elem + ':'): key = self.elem + ':' + key
+        if self.profile == 'release' and not counted and not key.startswith('rel:'): key = 'rel:' + key
         if not counted:
             self.obligations += 1; self.keys.add(key)
         self.violations.append({'key': key, 'rule': rule, 'where': where, 'expected': short(expected, 2000), 'found': short(found, 2000), 'detail': detail})
@@ -102,8 +109,28 @@ class Ctx:
             self.internal.append('floor not met: %s = %d < %d (a rule matching too few sites must not pass)' % (what, count, minimum))
 
     # ------------------------------------------------------------ configuration pass
-    def config_invariance(self, cp):
+    def debug_assert_bodies_visited(self):
+        """names of the interpreted vek bodies that contain a debug_assert! (their release behaviour differs: release pass)"""
+        out = set()
+        for fk, cp in self.cpasses.items():
+            cp.join()
+            if cp.res[0] is None or cp.res[0].compile_error is not None or len(cp.res[0].local) != 1: continue
+            a = cp.res[0].local[0]
+            names = {k: v[0] for k, v in a['bodykeys'].items()}
+            out |= set(names[v] for v in self.visited.get(fk, ()) if v in names and names[v] in a.get('debug_assert_bodies', {}))
+        return sorted(out)
+
+    def config_invariance(self):
         """every vek body this check interpreted must have the same MIR in a release build with the stable channel cfg (section 6.6)"""
+        self._cfg_seen = set(); self._cfg_n = 0; self._cfg_ndbg = 0; self._cfg_unknown = set()
+        for fk, cp in self.cpasses.items():
+            self._config_invariance(cp, self.visited.get(fk, set()))
+        self.counts['config:bodies compared'] = self._cfg_n; self.counts['config:bodies with debug_assert'] = self._cfg_ndbg
+        if self._cfg_n == 0 and not self.only and any(self.visited.values()):
+            self.internal.append('configuration pass matched none of the interpreted bodies')
+        self.assumptions.append('configuration pass: %d interpreted vek bodies compared between the analysed build (debug assertions, cfg(nightly)) and a release build with cfg(stable), per feature set used by the check (%d); overflow checks kept on in both (integer overflow is outside every claim); other targets (pointer width, OS) are not compared' % (self._cfg_n, len(self.cpasses)))
+
+    def _config_invariance(self, cp, visited):
         RULE = 'config: every vek body interpreted by this check has identical MIR in a release build with the stable-channel cfg (literals of debug_assert! masked), so the verdict transfers to the configurations users build'
         RULE2 = 'config: code inside a debug_assert! invocation (absent from release builds) has no effect other than panicking'
         cp.join()
@@ -119,9 +146,11 @@ class Ctx:
         keys = a['bodykeys']; fa, fb = a['fingerprints'], b['fingerprints']
         dbg = dict(a.get('debug_assert_bodies', {})); dbg.update(b.get('debug_assert_bodies', {}))
         n = 0; ndbg = 0
-        for v in sorted(self.visited):
-            if v not in keys: continue            # a body of num-traits / approx / core, or of a feature outside CONFIG_FEATURES
+        for v in sorted(visited):
+            if v not in keys: continue            # a body of num-traits / approx / core
             name, _pub, file, lo, hi = keys[v]
+            if name in self._cfg_seen: continue
+            self._cfg_seen.add(name)
             n += 1
             where = '%s:%s-%s %s' % (file, lo, hi, name)
             self.ob('cfg/%s/same-in-release-stable-build' % name, name in fb and fa.get(name) == fb.get(name), RULE, where, 'identical normalised MIR', 'differs between build configurations' if name in fb else 'body absent from the release/stable build')
@@ -139,15 +168,14 @@ class Ctx:
             if not bodies:
                 after = sorted(x for x in byfile.get(file, []) if x[0] >= line)
                 bodies = [x for x in after if x[0] == after[0][0]] if after else []
-            hit = sorted(set(name for lo, hi, k, name in bodies if k in self.visited))
+            hit = sorted(set(name for lo, hi, k, name in bodies if k in visited))
             if self.pid == 'C20' and not hit: hit = ['(crate)']
             for name in hit:
+                if (atom, name) in self._cfg_unknown: continue
+                self._cfg_unknown.add((atom, name))
                 self.viol('incomplete/cfg-predicate/%s/%s' % (atom, name), rule='fail closed: code this check interprets is conditional on a configuration predicate that no analysed configuration flips (only cargo features, the channel cfg and debug assertions are compared)', where='%s:%s %s(%s)' % (file, line, form, atom), found='%s(.. %s ..) at %s:%s' % (form, atom, file, line), expected='configuration predicates over cargo features, nightly/stable, debug_assertions, test only')
-        self.counts['config:bodies compared'] = n; self.counts['config:bodies with debug_assert'] = ndbg
-        self.counts['config:bodies of the crate'] = len(fa)
-        if n == 0 and not self.only and self.visited:
-            self.internal.append('configuration pass matched none of the %d interpreted bodies' % len(self.visited))
-        self.assumptions.append('configuration pass: %d interpreted vek bodies compared between the analysed build (debug assertions, cfg(nightly)) and a release build with cfg(stable); overflow checks kept on in both (integer overflow is outside every claim); other targets (pointer width, OS) are not compared' % n)
+        self._cfg_n += n; self._cfg_ndbg += ndbg
+        self.counts['config:bodies of the crate'] = max(self.counts.get('config:bodies of the crate', 0), len(fa))
 
     # ------------------------------------------------------------ output
     def finish(self):
